@@ -9,6 +9,7 @@ package c13
 import (
 	"fmt"
 	"io"
+	"net"
 	"strings"
 	"syscall"
 
@@ -26,7 +27,9 @@ const (
 )
 
 // op codes: s/p = ListenStream/ListenPacket on a, S/P on b, c = close oldest own handle,
-// x/y = ListenStream/ListenPacket on an address that cannot be bound (the call must fail, not hang)
+// x/y = ListenStream/ListenPacket on an address that cannot be bound (the call must fail, not hang),
+// k = a client connects to address a and is never accepted, d = a datagram is sent to address a
+// and never read (traffic that is pending when the handles close)
 type program string
 
 const addrBusy = "127.0.0.1:9002"
@@ -34,7 +37,7 @@ const addrBusy = "127.0.0.1:9002"
 var menu = []program{"sc", "pc", "ssc c", "sSc c", "spc c", "scsc", "pcpc", "xsc", "ypc"}
 
 func runProgram(m service.ListenerManager, p program, errs *[]string) {
-	var handles []io.Closer
+	var handles, pending []io.Closer
 	for _, op := range p {
 		switch op {
 		case 's', 'S':
@@ -69,6 +72,17 @@ func runProgram(m service.ListenerManager, p program, errs *[]string) {
 				*errs = append(*errs, "ListenPacket on an unbindable address succeeded")
 				pc.Close()
 			}
+		case 'k':
+			if c, err := vnet.EnvDial(&net.TCPAddr{IP: net.IPv4(203, 0, 113, 9)}, addrA); err == nil {
+				pending = append(pending, c)
+			}
+			vrt.WaitIdle()
+		case 'd':
+			if u, err := vnet.EnvListenUDP(&net.UDPAddr{IP: net.IPv4(203, 0, 113, 9), Port: 0}); err == nil {
+				u.SendRaw([]byte("pending datagram"), &net.UDPAddr{IP: net.IPv4(127, 0, 0, 1), Port: 9000})
+				pending = append(pending, u)
+			}
+			vrt.WaitIdle()
 		case 'c':
 			if len(handles) > 0 {
 				handles[0].Close()
@@ -78,6 +92,9 @@ func runProgram(m service.ListenerManager, p program, errs *[]string) {
 	}
 	for _, h := range handles {
 		h.Close()
+	}
+	for _, c := range pending {
+		c.Close()
 	}
 }
 
@@ -167,6 +184,10 @@ func scenarios(tier string) (two, three []*engine.Scenario) {
 			}
 			two = append(two, scenario([]program{mn[i], mn[j]}))
 		}
+	}
+	// traffic pending on the shared socket when the handles close
+	for _, ps := range [][]program{{"skc"}, {"pdc"}, {"skc", "sc"}, {"pdc", "pc"}, {"skc", "pdc"}, {"sksc c", "sc"}} {
+		two = append(two, scenario(ps))
 	}
 	for i := 0; i < len(small); i++ {
 		for j := i; j < len(small); j++ {
